@@ -1,7 +1,8 @@
 #!/venv/bin/python
 """seedcheck.py CXX mK [CHECK...]  — confirm a sub-agent's seeded defect and run our checks on it.
 
-Uses the agent's own scratch worktree /tmp/agent-wt-CXX (clean, at a /repo commit): applies the patch
+Uses the agent's own scratch worktree /tmp/agent-wt-CXX (clean, at a /repo commit; when it is gone, a temporary
+worktree under /var/tmp and the copy of the seed kept in /verif/seeded are used instead): applies the patch
 there, (1) runs the pinned suite and compares with the baseline, (2) runs the demo (must fail), (3) runs
 our quick checks with JMC_REPO pointing at the patched worktree, then reverts and (4) runs the demo again
 (must pass).  Writes /verif/seeded/CXX-mK/{patch.diff,demo*,meta.json}."""
@@ -15,6 +16,14 @@ wt = f"/tmp/{PFX}-wt-{prop}"
 src = f"/tmp/{PFX}-out-{prop}/{m}"
 dst = f"/verif/seeded/{prop}-{m}" if PFX == "agent" else f"/verif/seeded/{prop}-{PFX[5:]}{m}"
 base = json.load(open("/root/.vp/BASELINE.json"))
+OWN_WT = False
+if not os.path.isdir(src):
+    # the agents' scratch directories are gone: re-evaluate from the copy kept under /verif/seeded
+    src = dst
+if not os.path.isdir(wt):
+    wt = f"/var/tmp/seed-wt-{prop}-{os.getpid()}"
+    subprocess.run(f"git -C /repo worktree add -q --detach {wt}", shell=True, check=True)
+    OWN_WT = True
 
 def sh(cmd, **kw):
     return subprocess.run(cmd, shell=True, capture_output=True, text=True, **kw)
@@ -86,13 +95,18 @@ else:
     dn, code, tail = demo()
     res["demo_passes_without_patch"] = (code == 0)
 os.makedirs(dst, exist_ok=True)
-for f in os.listdir(src):
-    if f in ("patch.diff", "demo.py", "test_demo.py"):
-        shutil.copy(os.path.join(src, f), dst)
+if src != dst:
+    for f in os.listdir(src):
+        if f in ("patch.diff", "demo.py", "test_demo.py"):
+            shutil.copy(os.path.join(src, f), dst)
 try:
     am = json.load(open(os.path.join(src, "meta.json")))
+    if src == dst:
+        am = dict(summary=am.get("breaks"), needs=am.get("needs"), files=am.get("files"))
 except Exception:
     am = {}
+if OWN_WT:
+    sh(f"git -C /repo worktree remove --force {wt}; git -C /repo worktree prune")
 res["agent_meta"] = am
 res["confirmed"] = bool(res["applied"] and not res.get("suite_stable_tests_not_passing") and res["demo_fails_with_patch"] and res["demo_passes_without_patch"])
 res["detected_by"] = [c for c, v in res["checks"].items() if v["exit"] == 1]
